@@ -139,6 +139,8 @@ def run_c06(res, tier):
     passes.run_c11(res, ast, rules=("WINDOW-BY-CONSTRUCTION",))
     import rt
     rt.run_tape_rules(res, ast, rules=("BOUNDS-GUARD", "TAPE-PAIR"))
+    import grow
+    grow.run_grow(res, ast)
     import mirrules as _mr
     from mir import load_facts as _lf
     _mr.run_tape_pair_mir(res, _lf())
@@ -332,6 +334,8 @@ def run_c09(res, tier):
     ast = load_ast()
     rt.run_tape_rules(res, ast)
     rt.run_alloc_null(res, ast)
+    import grow
+    grow.run_grow(res, ast)
     import mirrules
     from mir import load_facts
     fx = load_facts()
